@@ -552,6 +552,8 @@ def run_s3paths(task):
                 paths += [rel, "/" + rel]
         paths += ["../t10/data/x.parquet", "/data/../../t10/data/x.parquet", "data/../../../secret.txt", "../../secret.txt", "..//t10/data/x.parquet", "data/./../../t1x/secret.txt",
                   "s3://bkt/warehouse/t10/data/x.parquet", "/warehouse/t10/data/x.parquet", "warehouse/t10/data/x.parquet", "../t1x/secret.txt", "..", "../", "/..", "../t10"]
+        if task.get("only"):
+            paths = [task["only"][1]]
         L = _S3L(t, w.location())
         seen = []
         w.fake.hook = lambda phase, op, key, req: seen.append((op, key)) if phase == "before" else None
@@ -559,7 +561,7 @@ def run_s3paths(task):
             for i, path in enumerate(paths):
                 if i % task["nshard"] != task["shard"]:
                     continue
-                for ep in S3_EPS:
+                for ep in (S3_EPS if not task.get("only") else [task["only"][0]]):
                     del seen[:]
                     try:
                         call_ep(L, ep, path)
@@ -645,8 +647,8 @@ def replay(case):
     install_hook()
     out = []
     if case["kind"] in ("s3path", "s3paths"):
-        r = run_s3paths({"depth": 3, "shard": 0, "nshard": 1})
-        return [{"bucket": v["bucket"], "what": v["what"]} for v in r.violations if case["kind"] == "s3paths" or (v["case"].get("ep") == case["ep"] and v["case"].get("path") == case["path"])][:3]
+        r = run_s3paths({"depth": 2, "shard": 0, "nshard": 1, "only": (case["ep"], case["path"]) if case["kind"] == "s3path" else None})
+        return [{"bucket": v["bucket"], "what": v["what"]} for v in r.violations][:3]
     with scratch_dir("c17r") as d:
         L = Layout(d, case.get("via_symlink", False))
         tmp = Result()
